@@ -264,6 +264,32 @@ try:
     m = cls(**kw)
 except AssertionError as e:
     print(json.dumps({"skip": "not a valid message object for this class: %r" % (e,)})); raise SystemExit
+# the candidate must be a *valid* message: the unit's preconditions, evaluated natively on the real object
+import re as _re
+WS = [c for c in map(chr, range(0x30000)) if c.isspace()]
+def _comp_ok(c, strict):
+    return bool(c) and (all(ch in "0123456789abcdefghijklmnopqrstuvwxyz_" for ch in c) if strict else
+                        all(ch not in WS and ch not in ".#" for ch in c))
+def uri_ok(s, strict, ale, ae):
+    parts = s.split(".")
+    if ale:
+        return all(_comp_ok(c, strict) for c in parts[:-1]) and (parts[-1] == "" or _comp_ok(parts[-1], strict))
+    if ae:
+        return all(c == "" or _comp_ok(c, strict) for c in parts)
+    return all(_comp_ok(c, strict) for c in parts)
+def str_keys(d):
+    return all(type(k) is str for k in d)
+def enc_algo_ok(x):
+    return x in ("cryptobox", "mqtt", "xbr") or bool(_re.fullmatch(r"x_([a-z][0-9a-z_]+)?", x))
+def enc_ser_ok(x):
+    return x in ("json", "msgpack", "cbor", "ubjson", "flatbuffers") or bool(_re.fullmatch(r"x_([a-z][0-9a-z_]+)?", x))
+for req in case.get("requires", []):
+    try:
+        ok = bool(eval(req))
+    except Exception as e:
+        ok = False
+    if not ok:
+        print(json.dumps({"skip": "candidate does not satisfy the unit's precondition: %s" % req[:120]})); raise SystemExit
 raw = m.marshal()
 try:
     r1 = cls.parse(raw)
@@ -341,7 +367,20 @@ def replay(o):
                 fields[k[3:]] = dict(v["dict"], **({v["other_key"]: 0} if isinstance(v.get("other_key"), str) else {}))
             elif isinstance(v, list):      # forward_for chain: [{"dict": {...}}, ...]
                 fields[k[3:]] = [dict(e["dict"]) if isinstance(e, dict) and "dict" in e else (0 if e == "<opaque>" else e) for e in v]
-    out = Rp.run_py(_HARNESS.replace("CASE", repr({"cls": mt.group(1), "fields": fields})))
+    if not fields:
+        return {"reproduced": False, "detail": "no counterexample values to replay"}
+    from pyvc.contracts import Registry
+    reg = Registry()
+    build(reg)
+    reqs = []
+    for c in reg.units:
+        if c.name == unit:
+            for r in c.requires:
+                try:
+                    reqs.append(Rp.native_clause(r))
+                except Exception:
+                    pass
+    out = Rp.run_py(_HARNESS.replace("CASE", repr({"cls": mt.group(1), "fields": fields, "requires": reqs})))
     bad = isinstance(out, dict) and bool(out.get("diff"))
     return {"reproduced": bad, "case": {"cls": mt.group(1), "fields": fields}, "observed": out,
             "detail": "the counterexample message built with the real class, marshalled and parsed with the real code; fields "
